@@ -3,6 +3,18 @@ impl ValidationContext {
     // Stitch name collision with vars
     // -----------------------------------------------------------------------
 
+    // A knot or stitch name made of digits only reads back as a content index when its path is
+    // parsed, so diverts to it go nowhere (the reference compiler refuses such names as well).
+    fn validate_flow_name_is_not_a_number(&self, flow: &Flow) -> Result<(), CompilerError> {
+        if !flow.name.is_empty() && flow.name.chars().all(|c| c.is_ascii_digit()) {
+            return Err(CompilerError::invalid_source(format!(
+                "'{}' is not a valid knot or stitch name: a name needs at least one character that is not a digit.",
+                flow.name
+            )));
+        }
+        Ok(())
+    }
+
     fn validate_stitch_name(&self, stitch: &Flow) -> Result<(), CompilerError> {
         if self.global_var_names.contains(&stitch.name) {
             return Err(CompilerError::invalid_source(format!(
